@@ -195,7 +195,7 @@ def run_history(rec: Rec, make, rnd: random.Random, cycles: int, case: dict, kla
             attach(sim, san_rec, case)
         if passive_rec is not None:
             from .. import passive
-            passive.attach(sim, passive_rec, case)
+            passive.attach(sim, passive_rec, case, passive.ONLY)
 
         async def drv(ctx):
             ios = {p: resolve_port(circ, p) for p in model.ports}
